@@ -5,7 +5,7 @@
    the pass starts again); a visit that takes a packet uses one unit of the slot's allowance (RR: 1, WRR: weight), a visit
    that finds the class empty ends the slot.  *_visit says the whole visit sequence of every execution follows it;
    *_visit_meaning says what a visit does to the queues; *_starts_follow_visits that the sequence of transmission starts
-   is exactly the sequence of visits that took a packet. *)
+   is exactly the sequence of visits that took a packet (pclass = class of the packet's flow; identity map here). *)
 From Coq Require Import ZArith QArith List.
 From ONL Require Import Elem.Packet Elem.StoreQ Elem.SchedBase Elem.SchedBaseProofs Elem.SP Elem.SPProofs Elem.RR Elem.RRProofs Elem.WRR Elem.WRRProofs.
 Import ListNotations.
@@ -25,14 +25,14 @@ Theorem C15_rr_visit_meaning : forall (r : Q) (fl : list Z) acts s tr a s' o f b
   0 < r ->
   rr_run r fl acts = Some (s, tr) -> rr_act r fl s a = Some (s', o) -> In (OVisit f b) o ->
   if b then exists x rest, items (mstores s f) = x :: rest /\ get (mstores s' f) = GGranted x /\ items (mstores s' f) = rest
-  else items (mstores s f) = [] /\ held_flow s f = [].
+  else items (mstores s f) = [] /\ held_class (rr_cfg r fl) s f = [].
 Proof. exact rr_visit_meaning. Qed.
 Print Assumptions C15_rr_visit_meaning.
 
-(* the flows of the transmission starts, in order, are the flows of the visits that took a packet (the last one possibly still pending) *)
+(* the classes of the transmission starts, in order, are the classes of the visits that took a packet (the last one possibly still pending) *)
 Theorem C15_rr_starts_follow_visits : forall (r : Q) (fl : list Z) acts s tr,
   0 < r ->
-  rr_run r fl acts = Some (s, tr) -> served (tr_visits tr) = map flow (tr_starts tr) ++ pending s.
+  rr_run r fl acts = Some (s, tr) -> served (tr_visits tr) = map (pclass (rr_cfg r fl)) (tr_starts tr) ++ pending (rr_cfg r fl) s.
 Proof. exact rr_starts_follow_visits. Qed.
 Print Assumptions C15_rr_starts_follow_visits.
 
@@ -49,12 +49,12 @@ Theorem C15_wrr_visit_meaning : forall (r : Q) (ws : list (Z * Z)) acts s tr a s
   0 < r ->
   wrr_run r ws acts = Some (s, tr) -> wrr_act r ws s a = Some (s', o) -> In (OVisit f b) o ->
   if b then exists x rest, items (mstores s f) = x :: rest /\ get (mstores s' f) = GGranted x /\ items (mstores s' f) = rest
-  else items (mstores s f) = [] /\ held_flow s f = [].
+  else items (mstores s f) = [] /\ held_class (wrr_cfg r ws) s f = [].
 Proof. exact wrr_visit_meaning. Qed.
 Print Assumptions C15_wrr_visit_meaning.
 
 Theorem C15_wrr_starts_follow_visits : forall (r : Q) (ws : list (Z * Z)) acts s tr,
   0 < r ->
-  wrr_run r ws acts = Some (s, tr) -> served (tr_visits tr) = map flow (tr_starts tr) ++ pending s.
+  wrr_run r ws acts = Some (s, tr) -> served (tr_visits tr) = map (pclass (wrr_cfg r ws)) (tr_starts tr) ++ pending (wrr_cfg r ws) s.
 Proof. exact wrr_starts_follow_visits. Qed.
 Print Assumptions C15_wrr_starts_follow_visits.
